@@ -16,11 +16,13 @@ claim("C01", "table totality/disjointness over AST-evaluated enum sets + abstrac
       "arithmetic and polyA distances are runtime-valued and not decided.",
       "DESIGN.md 3/C01 (E1-E4)")
 
-claim("C11", "left/right table symmetry over AST-evaluated enum sets (typed code-pair reflection X1 in progress)",
-      "Decides the reflection clause's table part: every *_left event has a *_right twin in the same classification sets, with "
-      "equal cost, mirrored printable names, and alternative_sites is side-symmetric. Translation equivariance and value-level "
-      "equivariance are not decided.",
-      "DESIGN.md 3/C11 (X2; X1 staged)")
+claim("C11", "typed strand reflection of code: canonical fact multisets in linear normal form for function pairs, left/right blocks, flag specialisations and interval literals; table symmetry",
+      "Decides the reflection clause structurally: (X1) for 10 declared function pairs, 6 left/right block pairs and 5 direction-flag "
+      "functions the left side, reflected (coordinates negated, interval sides swapped, sequences reversed, index duals, left/right "
+      "names dualised) and reduced to a multiset of canonical guards/effects, equals the right side; first/last interval literals "
+      "are mirror-symmetric; (X2) every *_left event has a *_right twin in the same classification sets with equal cost and mirrored "
+      "names. Translation equivariance and value-level equivariance are not decided.",
+      "DESIGN.md 3/C11 (X1-X2)")
 
 claim("C17", "path-wise symbolic memo check, who-constructs / provenance checks over resolved call sites, key-tuple agreement",
       "Decides: the exon-id memo returns what it stores on hit and miss; every novel transcript/gene id takes its number from the "
